@@ -358,7 +358,7 @@ func driver(args []string) int {
 	}
 	// must-hit probes: counted on the simulator side, so an edit to /repo cannot turn them off
 	for _, mh := range p.MustHit {
-		if agg.Faults[mh] == 0 && agg.Probes[mh] == 0 {
+		if agg.Faults[mh] == 0 && agg.Probes[mh] == 0 && len(agg.Failures) == 0 && len(crashes) == 0 {
 			fmt.Fprintf(os.Stderr, "HARNESS-ERROR must-hit probe %q stayed at zero (vacuous check)\n", mh)
 			return 2
 		}
@@ -391,6 +391,21 @@ func driver(args []string) int {
 			same := func(vals []uint64) bool {
 				rr := execRun(p, core.NewReplayTape(vals), false)
 				return rr.Harness == "" && rr.Viol != nil && rr.Viol.Signature == sig
+			}
+			shrinkBudget := 1500
+			if f.Viol.Oracle == "race" {
+				// the race detector reports each race once per process: evaluate in fresh processes
+				shrinkBudget = 120
+				same = func(vals []uint64) bool {
+					tf := ReplayFile{Tier: *tier, Property: p.ID, Engine: p.Engine, Signature: sig, Tape: vals}
+					tb, _ := json.Marshal(tf)
+					tpath := filepath.Join(tmp, "race-eval.json")
+					os.WriteFile(tpath, tb, 0o644)
+					cmd := exec.Command(self, "replay", "-file", tpath, "-quiet")
+					cmd.Env = append(os.Environ(), "GOMAXPROCS=1")
+					ob, _ := cmd.CombinedOutput()
+					return strings.Contains(string(ob), "REPRODUCED")
+				}
 			}
 			historyDependent := false
 			useHistory := func() int {
@@ -454,7 +469,7 @@ func driver(args []string) int {
 			var rr *core.Run
 			if !historyDependent {
 				var evals int
-				min, evals = core.Shrink(f.Tape, same, 1500)
+				min, evals = core.Shrink(f.Tape, same, shrinkBudget)
 				rf.ShrinkEvals = evals
 				tp := core.NewReplayTape(min)
 				tp.Trace = true
@@ -462,9 +477,11 @@ func driver(args []string) int {
 				rf.Tape = tp.Vals
 				rf.TapeLabels = tp.Labels
 				rf.Trace = rr.Trace()
-				if rr.Viol != nil {
+				if rr.Viol != nil && rr.Viol.Signature == sig {
 					rf.Observation = rr.Viol.Observation
 					rf.Violation = rr.Viol
+				} else {
+					rf.Observation = f.Viol.Observation
 				}
 			}
 		} else {
